@@ -273,7 +273,7 @@ func scripts() []*script {
 			st.logf("CloseWithError again %s", classify(c.CloseWithError(43, "later")))
 			st.logf("Read %s", read1(cs))
 		}},
-		{name: "s06a2-senddatagram-after-local-close", expectMismatch: true, body: func(st stack) {
+		{name: "s06a2-senddatagram-after-local-close", body: func(st stack) {
 			// D2 in DEVIATIONS.md: quic-go's datagramQueue.Add does not look at the closed state while
 			// the send queue (32 frames) has room, so SendDatagram keeps returning nil after the close.
 			c, _ := st.connect()
@@ -301,7 +301,7 @@ func scripts() []*script {
 			st.logf("CloseWithError on closed conn %s", classify(s.CloseWithError(1, "")))
 			st.logf("Read %s", read1(ss))
 		}},
-		{name: "s06b2-senddatagram-after-remote-close", expectMismatch: true, body: func(st stack) {
+		{name: "s06b2-senddatagram-after-remote-close", body: func(st stack) {
 			// D2 in DEVIATIONS.md (same mechanism on the side that received the close)
 			c, s := st.connect()
 			_ = c.CloseWithError(42, "")
@@ -498,7 +498,7 @@ func scripts() []*script {
 			st.logf("peer read %s end=%s", show(d), end)
 			st.logf("peer late write: %s", writeUntilFail(st, cs, []byte("late")))
 		}},
-		{name: "s11b-qstream-close-on-both-ends", expectMismatch: true, body: func(st stack) {
+		{name: "s11b-qstream-close-on-both-ends", body: func(st stack) {
 			// D3 in DEVIATIONS.md: after the peer's STOP_SENDING the real SendStream.Close reports
 			// "close called for canceled stream"; the fake only does so after a LOCAL CancelWrite.
 			c, s := st.connect()
@@ -656,7 +656,7 @@ func scripts() []*script {
 			_ = c.CloseWithError(h3NoError, "")
 			join()
 		}},
-		{name: "s14b-declined-raw-stream-parsing-as-h3-DATA", expectMismatch: true, body: func(st stack) {
+		{name: "s14b-declined-raw-stream-parsing-as-h3-DATA", body: func(st stack) {
 			// D1 in DEVIATIONS.md: after the dispatcher declines, the real http3 server parses the
 			// stream as HTTP/3 frames: 0x401 is skipped as an unknown frame (length 0 here), the next
 			// frame is DATA (type 0) where HEADERS is required -> the CONNECTION is closed with
@@ -970,7 +970,7 @@ func scripts() []*script {
 			join()
 			st.logf("write %s; read %s intact=%v end=%s", wcls, show(d), string(d) == string(p), end)
 		}},
-		{name: "s27-stream-limit-error-as-hysteria-sees-it", maxStreams: 2, expectMismatch: true, body: func(st stack) {
+		{name: "s27-stream-limit-error-as-hysteria-sees-it", maxStreams: 2, body: func(st stack) {
 			// D5 in DEVIATIONS.md: quic-go returns a POINTER (&StreamLimitReachedError{}), which
 			// hysteria's errors.Is(err, quic.StreamLimitReachedError{}) does not match.
 			c, _ := st.connect()
@@ -992,7 +992,7 @@ func scripts() []*script {
 			st.logf("peer AcceptStream %s", acceptClass(s))
 			st.logf("peer Read of the buffered rest: %s", read1(ss))
 		}},
-		{name: "s29-queued-datagram-after-local-close", expectMismatch: true, body: func(st stack) {
+		{name: "s29-queued-datagram-after-local-close", body: func(st stack) {
 			// D4 in DEVIATIONS.md: quic-go's datagramQueue.Receive hands out datagrams that were
 			// queued before the close; the fake fails ReceiveDatagram as soon as the conn is closed.
 			c, s := st.connect()
